@@ -91,7 +91,7 @@ func runReplay(bin string, r *Replay, dir, realDir string, trace bool, raceLog s
 		raceLog = filepath.Join(dir, "racelog-discard")
 	}
 	gorace := goraceBase + " log_path=" + raceLog
-	cmd.Env = append(os.Environ(), gorace, "VERIF_SAMPLES="+filepath.Join(repoDir, "testdata"), "VERIF_CORPUS="+corpusFile)
+	cmd.Env = append(os.Environ(), gorace, "VERIF_SAMPLES="+filepath.Join(repoDir, "testdata"), "VERIF_CORPUS="+corpusFile, "VERIF_CHANOPS="+chanFlag())
 	var so, se strings.Builder
 	cmd.Stdout, cmd.Stderr = &so, &se
 	err = cmd.Run()
